@@ -24,13 +24,17 @@ MANIFEST = dict(
          "coefficient count drives model detection; (5) constructor wiring (CRPIX, CD, CD^-1, pole, defaults LONPOLE=180, "
          "theta0=90); (6) object-state discipline: every attribute written by a conversion call is a lazy cache behind a "
          "set-before-compute flag or scratch written before every read; (7) root finder: target/guess/solver roles, RA-wrapped "
-         "longitude residual, tolerance forwarded; (8) jacobian = central differences with wrapped RA difference; RA-difference "
-         "wrap structure; inverse-fit term enumeration agrees between design matrix and coefficient packing; helpers do not "
-         "modify their inputs.",
+         "longitude residual, tolerance forwarded; (8) jacobian = central differences with wrapped RA difference; the RA-difference "
+         "wrap returns input + 360 k in [-180, 180] for every finite scalar or array element and returns for nan/+-inf (case-partitioned "
+         "interval x congruence analysis of the function and the helpers it calls; the loop-shape rules decide only where that analysis "
+         "cannot); inverse-fit term enumeration agrees between design matrix and coefficient packing, and the fit drivers hand the "
+         "fitter the convention's source and target coordinates over a grid covering the image (call summaries in the term domain); "
+         "helpers do not modify their inputs.",
     note="Not decided: the 1e-9 degree / 1e-6 pixel tolerances, convergence of fsolve, accuracy of the fitted inverse polynomial, "
          "numpy broadcasting. Assumes theta0 = 90 (TAN family, the property's quantifier). Trusted: sympy normaliser, CPython ast.",
     technique="static analysis: flag-specialised CFG dataflow (definite assignment, dominance), abstract interpretation over a symbolic "
-              "term domain with normal-form comparison against transcribed FITS-WCS definitions, object-state (typestate) rules over the class's self-call graph",
+              "term domain with normal-form comparison against transcribed FITS-WCS definitions (module-level coefficient tables are constant-evaluated, "
+              "also when a generator function builds them), interval x congruence analysis with case partitioning, object-state (typestate) rules over the class's self-call graph",
 )
 
 MOD = "esutil.wcsutil"
@@ -49,9 +53,176 @@ def P(mat, u, v):
     return sum(mat[i][j] * u ** i * v ** j for i in range(len(mat)) for j in range(len(mat[0])))
 
 
+# ---------------------------------------------------------------------------
+# term evaluator of this check: vcheck.symx plus the constructs the coefficient-table and inverse-fit code may use
+#   * iter() / next() over literal sequences (constant evaluation of table-building code at module level),
+#   * `self.<method>` used as a value (dict dispatch through bound methods) and calls through such a value,
+#   * fancy-index stores m[rows, cols] = values with literal index lists,
+#   * call summaries: a callee named in `se.summaries` is not entered; its arguments are bound to its parameter names
+#     (positional, keyword and default alike), recorded in `se.calls`, and the summary's value is returned.
+# Everything else is the shared evaluator; anything it does not know still stops it with symx.Unsupported (no verdict).
+# ---------------------------------------------------------------------------
+class _Iter:
+    """iterator over a literal sequence"""
+
+    def __init__(self, seq):
+        self.seq = list(seq)
+        self.pos = 0
+
+
+class _Bound:
+    """`self.<method>` as a value"""
+
+    def __init__(self, name):
+        self.name = name
+
+    def __repr__(self):
+        return "_Bound(%s)" % self.name
+
+
+class _Env(symx.Env):
+    def exec_body(self, stmts, cond):
+        sym = not (cond is sp.true or cond == sp.true)
+        if sym:
+            self.se._symdepth = getattr(self.se, "_symdepth", 0) + 1
+        try:
+            return super().exec_body(stmts, cond)
+        finally:
+            if sym:
+                self.se._symdepth -= 1
+
+    def _method(self, node):
+        """name of the method of the analysed class that `self.<name>` denotes, else None"""
+        if isinstance(node, ast.Attribute) and isinstance(node.value, ast.Name) and node.value.id == "self" and self.fi is not None and self.fi.cls \
+                and norm(node) not in self.vars and self.se.repo.has("%s.%s.%s" % (self.fi.module.name, self.fi.cls, node.attr)):
+            return node.attr
+        return None
+
+    def ev(self, e, stmt_level=False):
+        if isinstance(e, ast.Attribute) and self._method(e):
+            return _Bound(e.attr)
+        return super().ev(e, stmt_level)
+
+    def _target(self, c):
+        """(FuncInfo, is-method) of a call to a package function or to a method of the analysed class, else (None, False)"""
+        d = dotted_name(c.func)
+        if not d:
+            return None, False
+        full = self.se.repo.resolve_name(self.mod, d)
+        if self.se.repo.has(full):
+            return self.se.repo.func(full), False
+        if self._method(c.func):
+            return self.se.repo.func("%s.%s.%s" % (self.fi.module.name, self.fi.cls, c.func.attr)), True
+        return None, False
+
+    def call(self, c, stmt_level=False):
+        f = c.func
+        if isinstance(f, ast.Name) and f.id not in self.vars and f.id not in self.mod.funcs and f.id not in self.mod.imports:
+            if f.id == "iter" and len(c.args) == 1 and not c.keywords:
+                v = self.ev(c.args[0])
+                if isinstance(v, _Iter):
+                    return v
+                if isinstance(v, (tuple, list, dict)):
+                    return _Iter(v)
+                raise symx.Unsupported("symx: iter() of a non-literal sequence at %s" % self.where(c))
+            if f.id == "next" and len(c.args) in (1, 2) and not c.keywords:
+                it = self.ev(c.args[0])
+                if not isinstance(it, _Iter):
+                    raise symx.Unsupported("symx: next() of %r at %s" % (it, self.where(c)))
+                if getattr(self.se, "_symdepth", 0):
+                    raise symx.Unsupported("symx: next() under an undecided condition at %s" % self.where(c))
+                if it.pos < len(it.seq):
+                    it.pos += 1
+                    return it.seq[it.pos - 1]
+                if len(c.args) == 2:
+                    return self.ev(c.args[1])
+                raise symx.Unsupported("symx: next() on an exhausted iterator at %s" % self.where(c))
+        # a call through a value that denotes a method of the object: extractors[name](...), fn = self.m; fn(...)
+        if isinstance(f, (ast.Subscript, ast.IfExp)) or (isinstance(f, ast.Name) and isinstance(self.vars.get(f.id), _Bound)):
+            v = self.ev(f)
+            if isinstance(v, _Bound):
+                c2 = ast.Call(func=ast.Attribute(value=ast.Name(id="self", ctx=ast.Load()), attr=v.name, ctx=ast.Load()), args=c.args, keywords=c.keywords)
+                ast.copy_location(c2, c)
+                ast.fix_missing_locations(c2)
+                return self.call(c2, stmt_level)
+        summaries = getattr(self.se, "summaries", None)
+        if summaries:
+            tgt, meth = self._target(c)
+            if tgt is not None and tgt.qualname in summaries:
+                params = [p for p in tgt.params if not p.startswith("*")]
+                if meth and not any(isinstance(d_, ast.Name) and d_.id == "staticmethod" for d_ in tgt.node.decorator_list):
+                    params = params[1:]
+                if any(isinstance(a, ast.Starred) for a in c.args) or any(k.arg is None for k in c.keywords) or len(c.args) > len(params):
+                    raise symx.Unsupported("symx: cannot bind the arguments of `%s` at %s" % (norm(c)[:60], self.where(c)))
+                bound = {}
+                for p, a in zip(params, c.args):
+                    bound[p] = self.ev(a)
+                for k in c.keywords:
+                    if k.arg in bound or k.arg not in params:
+                        raise symx.Unsupported("symx: cannot bind `%s` of `%s` at %s" % (k.arg, norm(c)[:60], self.where(c)))
+                    bound[k.arg] = self.ev(k.value)
+                for p in params:
+                    if p not in bound:
+                        if p not in tgt.defaults:
+                            raise symx.Unsupported("symx: missing argument `%s` of `%s` at %s" % (p, norm(c)[:60], self.where(c)))
+                        bound[p] = type(self)(self.se, tgt, tgt.module, {}, {}).ev(tgt.defaults[p])
+                self.se.calls.append((tgt.qualname, bound, getattr(self.se, "_symdepth", 0) == 0))
+                return summaries[tgt.qualname](bound)
+        return super().call(c, stmt_level)
+
+    def assign(self, t, v, st):
+        if isinstance(t, ast.Subscript) and isinstance(t.slice, ast.Tuple) and len(t.slice.elts) == 2 and not any(isinstance(x, ast.Slice) for x in t.slice.elts):
+            idx = self.ev(t.slice)
+            if isinstance(idx, tuple) and all(isinstance(i, (list, tuple)) for i in idx):
+                # m[rows, cols] = values: one element per (rows[k], cols[k])
+                base = self.ev(t.value)
+                rows, cols = idx
+                isint = lambda z: isinstance(z, (int, sp.Integer)) and not isinstance(z, bool)
+                if not (isinstance(base, list) and all(isinstance(r, list) for r in base) and len(rows) == len(cols) and all(isint(z) for z in list(rows) + list(cols))
+                        and all(0 <= int(i) < len(base) and 0 <= int(j) < len(base[0]) for i, j in zip(rows, cols))):
+                    raise symx.Unsupported("symx: fancy-index store `%s` at %s" % (norm(t), self.where(st)))
+                n = len(rows)
+                if isinstance(v, (tuple, list)) and len(v) == n:
+                    vals = list(v)
+                elif isinstance(v, sp.Basic) and getattr(v.func, "__name__", "") == "SLICE" and v.args[1] in (sp.Symbol("None"), sp.Integer(0)) and v.args[2] == n \
+                        and v.args[3] in (sp.Symbol("None"), sp.Integer(1)):
+                    vals = [sp.Function("AT")(v.args[0], sp.Integer(k)) for k in range(n)]          # a[:n] element by element
+                else:
+                    raise symx.Unsupported("symx: fancy-index store of %r at %s" % (v, self.where(st)))
+                for i, j, x in zip(rows, cols, vals):          # in order: for a repeated position numpy keeps the last value
+                    base[int(i)][int(j)] = x
+                return
+        return super().assign(t, v, st)
+
+
+class _SE(symx.SymEval):
+    """SymEval whose environments are _Env.  symx creates its environments through the module global `Env` (in run and
+    module_const); it is pointed at _Env for the duration of these two calls only and restored afterwards."""
+
+    def __init__(self, *a, **kw):
+        super().__init__(*a, **kw)
+        self.summaries = {}
+        self.calls = []
+        self._symdepth = 0
+
+    def _with_env(self, fn, *a, **kw):
+        old = symx.Env
+        symx.Env = _Env
+        try:
+            return fn(*a, **kw)
+        finally:
+            symx.Env = old
+
+    def run(self, *a, **kw):
+        return self._with_env(super().run, *a, **kw)
+
+    def module_const(self, *a, **kw):
+        return self._with_env(super().module_const, *a, **kw)
+
+
 # rules that keep their verdict however the code is laid out (decided by term equality, effect analysis or dominance over
 # resolved calls); every other rule of this check is a template rule (vcheck.core.Check.obt)
-SEMANTIC = ('R10.1', 'R10.2', 'R10.3', 'R10.4', 'R10.5', 'R10.6', 'R10.7', 'R10.8', 'R10.9', 'R10.10', 'R10.12', 'R10.13')
+SEMANTIC = ('R10.1', 'R10.2', 'R10.3', 'R10.4', 'R10.5', 'R10.6', 'R10.7', 'R10.8', 'R10.9', 'R10.10', 'R10.11::wrap_ra_diff[', 'R10.12', 'R10.13')
 
 
 def run(chk):
@@ -181,7 +352,7 @@ def _mul(m, u, v):
 
 
 def _mkse(repo, opaque, **kw):
-    se = symx.SymEval(repo, opaque={W + o for o in opaque}, inline_depth=6, **kw)
+    se = _SE(repo, opaque={W + o for o in opaque}, inline_depth=6, **kw)
     se.assume["text:a[ix, iy] != 0.0"] = True     # the zero-coefficient skip in Apply2DPolynomial only saves work
     return se
 
@@ -343,6 +514,44 @@ def _peel_default(t, depth=4):
     return t
 
 
+_NEG = {sp.LessThan: sp.StrictGreaterThan, sp.GreaterThan: sp.StrictLessThan, sp.Ne: sp.Eq}
+
+
+def _pw2(t):
+    """(value-if, condition, value-else) of a two-armed Piecewise with the condition oriented to <, > or ==
+    (`X if c else Y` and `Y if not c else X` are the same term), else None"""
+    if isinstance(t, sp.Piecewise) and len(t.args) == 2 and t.args[1][1] == sp.true:
+        (x, c), (y, _) = t.args
+        if isinstance(c, sp.Not):
+            c, x, y = c.args[0], y, x
+        if type(c) in _NEG:
+            c, x, y = _NEG[type(c)](c.lhs, c.rhs), y, x
+        if isinstance(c, sp.StrictLessThan):
+            c = sp.StrictGreaterThan(c.rhs, c.lhs)
+        return x, c, y
+    return None
+
+
+def _arms_equal(a, b):
+    """equality of two terms; two-armed case distinctions are compared arm by arm after orienting their conditions, which needs
+    no simplifier (cheap and independent of machine load); everything else goes to symx.equal"""
+    if a == b:
+        return True
+    pa, pb = _pw2(a), _pw2(b)
+    if pa is not None and pb is not None and type(pa[1]) is type(pb[1]) and isinstance(pa[1], sp.Rel):
+        same = pa[1] == pb[1]
+        if not same:
+            try:
+                # t > 0 and k t > 0 are the same condition for a positive number k
+                q = sp.cancel((pa[1].lhs - pa[1].rhs) / (pb[1].lhs - pb[1].rhs))
+                same = bool(q.is_number and q.is_positive) and not isinstance(pa[1], sp.Eq) or bool(q.is_number and q != 0 and isinstance(pa[1], sp.Eq))
+            except Exception:
+                same = False
+        if same and _arms_equal(pa[0], pb[0]) and _arms_equal(pa[2], pb[2]):
+            return True
+    return bool(symx.equal(a, b)[0])
+
+
 def tangent(chk, repo):
     x, y, lon, lat = symx.symbols("x", "y", "lon", "lat")
     fi = repo.func(W + "image2sph")
@@ -371,7 +580,7 @@ def tangent(chk, repo):
             chk.ob("R10.5", "image2sph::native-latitude", eq, fi.where(),
                    "theta = atan(180/(pi R)) for R > 0 and exactly 90 deg at the reference point (R = 0)%s" % ("" if eq else " (got %s)" % str(got0.args[1])[:200]))
         chk.ob("R10.5", "image2sph::latitude-from-rotation", r[1] == want1 or symx.equal(r[1], want1)[0], fi.where(), "latitude is the rotated latitude, unchanged")
-    eq = all(a == b or symx.equal(a, b)[0] for a, b in zip(res[True], res[False])) if ok and isinstance(res[True], tuple) else False
+    eq = all(_arms_equal(a, b) for a, b in zip(res[True], res[False])) if ok and isinstance(res[True], tuple) else False
     chk.ob("R10.7", "image2sph::scalar-and-array-arms-agree", eq, fi.where(), "the scalar arm and the array arm denote the same terms")
     _fold_sites(chk, fi, repo)
     # projection
@@ -390,7 +599,7 @@ def tangent(chk, repo):
     ok = isinstance(r, tuple) and len(r) == 2
     if ok:
         for nm, got, want in (("x", r[0], wantx), ("y", r[1], wanty)):
-            eq, d = symx.equal(got, want)
+            eq = _arms_equal(got, want)
             if not eq and isinstance(got, sp.Piecewise) and len(got.args) == 2:
                 eq = symx.equal(got.args[0][0], want.args[0][0])[0] and got.args[1][0] == 0 and \
                     symx.equal(got.args[0][1].lhs - got.args[0][1].rhs, th)[0] and isinstance(got.args[0][1], sp.StrictGreaterThan)
@@ -399,7 +608,7 @@ def tangent(chk, repo):
                    % (nm, "" if nm == "x" else "-", "sin" if nm == "x" else "cos", "" if eq else " (got %s)" % str(got)[:200]))
     else:
         chk.ob("R10.5", "sph2image::returns-pair", False, fi.where(), "got %r" % (r,))
-    eq = all(a == b or symx.equal(a, b)[0] for a, b in zip(res[True], res[False])) if ok and isinstance(res[True], tuple) else False
+    eq = all(_arms_equal(a, b) for a, b in zip(res[True], res[False])) if ok and isinstance(res[True], tuple) else False
     chk.ob("R10.7", "sph2image::scalar-and-array-arms-agree", eq, fi.where(), "the scalar arm and the array arm denote the same terms")
     # _findxy: the array arm applies the scalar solver element by element with matched indices
     fi = repo.func(W + "_findxy")
@@ -496,7 +705,7 @@ def _trig_zero(e):
 
 
 def rotation(chk, repo):
-    se = symx.SymEval(repo, inline_depth=6)
+    se = _SE(repo, inline_depth=6)
     lo, la = symx.symbols("lo", "la")
     fi = repo.func(W + "_rotate")
     r = se.run(fi, {"longitude": lo, "latitude": la, "r": RM}, {})
@@ -534,7 +743,7 @@ def rotation(chk, repo):
     # rotation matrix against Calabretta & Greisen (2002) eq. 2: celestial unit vector of the native point (phi, theta)
     fi = repo.func(W + "CreateRotationMatrix")
     ap, dp, pp = symx.symbols("alphap", "deltap", "phip")
-    se = symx.SymEval(repo, inline_depth=6)
+    se = _SE(repo, inline_depth=6)
     R = se.run(fi, {"self.longpole": pp * 180 / sp.pi, "self.native_longpole": ap, "self.native_latpole": dp}, {})
     ok = symx._is_matrix(R) and len(R) == 3 and len(R[0]) == 3
     if not ok:
@@ -577,7 +786,7 @@ def _tpv_terms(xi, eta):
 
 def coeffs(chk, repo):
     u, v = symx.symbols("u", "v")
-    se = symx.SymEval(repo, inline_depth=6)
+    se = _SE(repo, inline_depth=6)
     se.assume["text:a[ix, iy] != 0.0"] = True
     fi = repo.func(W + "ExtractPVCoeffs")
     ap2d = repo.func(MOD + ".Apply2DPolynomial")
@@ -633,7 +842,7 @@ def coeffs(chk, repo):
             else:
                 wcs[pre + "_order"] = sp.Integer(2)
                 wcs.update({"%s_%d_%d" % (pre, i, j): sp.Symbol("%s_%d_%d" % (pre, i, j)) for i in range(3) for j in range(3) if i + j == 2})
-        se2 = symx.SymEval(repo, inline_depth=8)
+        se2 = _SE(repo, inline_depth=8)
         st = {"self.projection": proj, "self.wcs": wcs, "self.distort": {"name": "none"}, "self._inverse_computed": False}
         se2.run(fi, st, {})
         dist = se2.last_env.vars.get("self.distort")
@@ -646,7 +855,7 @@ def coeffs(chk, repo):
         chk.ob("R10.4", "ExtractDistortionModel[%s]" % proj, bool(ok), fi.where(),
                "projection %s selects the %s model with forward coefficients from %s/%s and inverse from %s/%s" % (proj, name, pa, pb, pap, pbp))
         # no coefficients -> no model
-        se3 = symx.SymEval(repo, inline_depth=8)
+        se3 = _SE(repo, inline_depth=8)
         st = {"self.projection": proj, "self.wcs": ({} if name == "scamp" else {"a_order": sp.Integer(2)}), "self.distort": {"name": "none"}, "self._inverse_computed": False}
         se3.run(fi, st, {})
         dist = se3.last_env.vars.get("self.distort")
@@ -694,7 +903,7 @@ def wiring(chk, repo):
     keys = ["crpix1", "crpix2", "crval1", "crval2", "cd1_1", "cd1_2", "cd2_1", "cd2_2"]
     hs = {k: sp.Symbol(k) for k in keys}
     wcs = dict(hs, ctype1="RA---TAN", ctype2="DEC--TAN", cunit1="deg")
-    se = symx.SymEval(repo, inline_depth=8)
+    se = _SE(repo, inline_depth=8)
     st = {"self.wcs": wcs, "self.longpole": sp.Integer(180), "self.latpole": sp.Integer(90), "self.theta0": sp.Integer(90),
           "self.distort": {"name": "none"}, "self._inverse_computed": False}
     se.run(fi, st, {})
@@ -719,7 +928,7 @@ def wiring(chk, repo):
     chk.ob("R10.6", "ExtractFromWCS::rotation-matrix-built-after-pole", bool(okr), fi.where(), "the rotation matrix is built from that pole (its third column is the CRVAL unit vector)")
     # header-supplied LONPOLE is honoured
     fi2 = repo.func(W + "SetAngles")
-    se2 = symx.SymEval(repo)
+    se2 = _SE(repo)
     lp = sp.Symbol("hdr_longpole")
     se2.run(fi2, {"self.wcs": {"longpole": lp}, "longpole": sp.Integer(180), "latpole": sp.Integer(90), "theta0": sp.Integer(90)}, {})
     V2 = se2.last_env.vars
@@ -1109,9 +1318,477 @@ def jacobian(chk, repo):
                "%s = 3600/(2 step) x central difference%s%s" % (nm, " of the wrapped RA difference x (-cos dec)" if nm.startswith("dra") else "", "" if eq else " (differs: %s)" % str(d)[:160]))
 
 
+# ---------------------------------------------------------------------------
+# R10.11 decided semantically: a case-partitioned interval x congruence analysis of the RA-difference wrap.
+# One element of the input is followed through the function (a scalar is its own element).  A case ("world") maps every
+# variable to: a finite value known by an interval and by its offset from the input modulo 360; one of nan / +inf / -inf;
+# or a truth value.  A comparison with a number splits the case at that number, so truth values are exact within a case;
+# +-k, fmod, % 360, np.where, masked stores, if / while and calls of package helpers have transfer functions; loops are
+# iterated to a fixpoint of cases at the loop head.  `np.any(mask)` of an array is true when this element's mask is, and
+# undetermined otherwise (the other elements decide).  The four kinds of input (finite, nan, +inf, -inf) are analysed
+# separately for scalar and array input.  Nothing is sampled or executed: the finite case starts from (-inf, inf).
+# ---------------------------------------------------------------------------
+_INF = float("inf")
+_UNK = "undetermined"
+
+
+class _NoVerdict(Exception):
+    pass
+
+
+def _fin(lo, loc, hi, hic, off):
+    return ("fin", lo, bool(loc and lo != -_INF), hi, bool(hic and hi != _INF), off)
+
+
+def _empty(v):
+    return v[1] > v[3] or (v[1] == v[3] and not (v[2] and v[4]))
+
+
+def _meet(v, lo, loc, hi, hic):
+    """finite value v restricted to the interval lo..hi"""
+    _, a, ac, b, bc, off = v
+    if lo > a or (lo == a and not loc):
+        a, ac = lo, loc
+    if hi < b or (hi == b and not hic):
+        b, bc = hi, hic
+    r = _fin(a, ac, b, bc, off)
+    return None if _empty(r) else r
+
+
+def _cut(v, op, c):
+    """(part of finite v where `v op c` holds, part where it does not); either may be None"""
+    if op is ast.Lt:
+        return _meet(v, -_INF, False, c, False), _meet(v, c, True, _INF, False)
+    if op is ast.LtE:
+        return _meet(v, -_INF, False, c, True), _meet(v, c, False, _INF, False)
+    if op is ast.Gt:
+        return _meet(v, c, False, _INF, False), _meet(v, -_INF, False, c, True)
+    if op is ast.GtE:
+        return _meet(v, c, True, _INF, False), _meet(v, -_INF, False, c, False)
+    if op is ast.Eq:
+        p = _meet(v, c, True, c, True)
+        return p, (None if (p is not None and v[1] == v[3]) else v)
+    if op is ast.NotEq:
+        f, t = _cut(v, ast.Eq, c)
+        return t, f
+    raise _NoVerdict("comparison operator %s" % op.__name__)
+
+
+_FLIP = {ast.Lt: ast.Gt, ast.LtE: ast.GtE, ast.Gt: ast.Lt, ast.GtE: ast.LtE, ast.Eq: ast.Eq, ast.NotEq: ast.NotEq}
+_PYOP = {ast.Lt: lambda a, b: a < b, ast.LtE: lambda a, b: a <= b, ast.Gt: lambda a, b: a > b, ast.GtE: lambda a, b: a >= b,
+         ast.Eq: lambda a, b: a == b, ast.NotEq: lambda a, b: a != b}
+_SPECIAL = {"nan": float("nan"), "+inf": _INF, "-inf": -_INF}
+
+
+def _isval(v):
+    return isinstance(v, tuple) and v and v[0] in ("fin", "nan", "+inf", "-inf")
+
+
+def _contains(big, small):
+    if isinstance(big, tuple) and isinstance(small, tuple) and big[0] == "fin" and small[0] == "fin":
+        return big[5] == small[5] and (big[1] < small[1] or (big[1] == small[1] and (big[2] or not small[2]))) \
+            and (big[3] > small[3] or (big[3] == small[3] and (big[4] or not small[4])))
+    return big == small
+
+
+class _Wrap:
+    def __init__(self, repo, fi, array, prefix="", depth=0):
+        self.repo, self.fi, self.array, self.prefix, self.depth = repo, fi, array, prefix, depth
+        self.rets = []
+
+    # -- names ---------------------------------------------------------------
+    def full(self, f):
+        d = dotted_name(f)
+        return self.repo.resolve_name(self.fi.module, d) if d else None
+
+    def get(self, w, name):
+        k = self.prefix + name
+        if k not in w:
+            raise _NoVerdict("name `%s` has no tracked value at %s" % (name, self.fi.where()))
+        return w[k]
+
+    @staticmethod
+    def put(w, k, v):
+        w2 = dict(w)
+        w2[k] = v
+        return w2
+
+    # -- arithmetic ------------------------------------------------------------
+    def shift(self, v, c):
+        if v[0] != "fin":
+            return v
+        off = None if v[5] is None else (v[5] + c) % 360.0
+        return _fin(v[1] + c, v[2], v[3] + c, v[4], off)
+
+    def rem(self, v, m, pysign):
+        """fmod (sign of the dividend) or % (sign of the divisor) by the positive number m"""
+        if v[0] == "nan" or v[0] in ("+inf", "-inf"):
+            return ("nan",)
+        off = v[5] if (v[5] is not None and m % 360.0 == 0) else None
+        lo, loc, hi, hic = v[1:5]
+        if pysign:
+            if lo >= 0 and hi < m:
+                return _fin(lo, loc, hi, hic, off)
+            return _fin(0.0, True, m, False, off)
+        if lo > -m and hi < m:
+            return _fin(lo, loc, hi, hic, off)
+        if lo >= 0:
+            return _fin(0.0, True, m, False, off)
+        if hi <= 0:
+            return _fin(-m, False, 0.0, True, off)
+        return _fin(-m, False, m, False, off)
+
+    def arith(self, op, a, b, node):
+        if isinstance(a, float) and isinstance(b, float):
+            try:
+                return {ast.Add: a + b, ast.Sub: a - b, ast.Mult: a * b}[type(op)]
+            except KeyError:
+                raise _NoVerdict("operator at %s" % self.fi.where(node))
+        if isinstance(op, ast.Add) and _isval(a) and isinstance(b, float):
+            return self.shift(a, b)
+        if isinstance(op, ast.Add) and _isval(b) and isinstance(a, float):
+            return self.shift(b, a)
+        if isinstance(op, ast.Sub) and _isval(a) and isinstance(b, float):
+            return self.shift(a, -b)
+        if isinstance(op, (ast.Mult, ast.Div)) and _isval(a) and b == 1.0:
+            return a
+        if isinstance(op, ast.Mult) and _isval(b) and a == 1.0:
+            return b
+        if isinstance(op, ast.Mod) and _isval(a) and isinstance(b, float) and 0 < b < _INF:
+            return self.rem(a, b, True)
+        raise _NoVerdict("arithmetic `%s` at %s" % (norm(node), self.fi.where(node)))
+
+    # -- expressions: list of (world, value) ------------------------------------
+    def cmp1(self, w, lnode, lv, op, rnode, rv):
+        if isinstance(lv, float) and _isval(rv):
+            return self.cmp1(w, rnode, rv, _FLIP[op], lnode, lv)
+        if isinstance(lv, float) and isinstance(rv, float):
+            return [(w, _PYOP[op](lv, rv))]
+        if not (_isval(lv) and isinstance(rv, float)):
+            raise _NoVerdict("comparison of %r with %r" % (lv, rv))
+        if lv[0] != "fin":
+            return [(w, _PYOP[op](_SPECIAL[lv[0]], rv))]
+        t, f = _cut(lv, op, rv)
+        name = self.prefix + lnode.id if isinstance(lnode, ast.Name) and (self.prefix + lnode.id) in w and w[self.prefix + lnode.id] == lv else None
+        out = []
+        for part, truth in ((t, True), (f, False)):
+            if part is not None:
+                out.append((self.put(w, name, part) if name else w, truth))
+        return out
+
+    def ev(self, e, w):
+        if isinstance(e, ast.Constant):
+            if isinstance(e.value, bool):
+                return [(w, e.value)]
+            if isinstance(e.value, (int, float)):
+                return [(w, float(e.value))]
+            raise _NoVerdict("constant %r" % (e.value,))
+        if isinstance(e, ast.Name):
+            return [(w, self.get(w, e.id))]
+        if isinstance(e, ast.UnaryOp):
+            out = []
+            for w1, v in self.ev(e.operand, w):
+                if isinstance(e.op, ast.USub) and isinstance(v, float):
+                    out.append((w1, -v))
+                elif isinstance(e.op, ast.UAdd):
+                    out.append((w1, v))
+                elif isinstance(e.op, (ast.Not, ast.Invert)) and (isinstance(v, bool) or v == _UNK):
+                    out.append((w1, v if v == _UNK else not v))
+                else:
+                    raise _NoVerdict("unary operator at %s" % self.fi.where(e))
+            return out
+        if isinstance(e, ast.BinOp):
+            out = []
+            for w1, a in self.ev(e.left, w):
+                for w2, b in self.ev(e.right, w1):
+                    if isinstance(e.op, (ast.BitAnd, ast.BitOr)) and all(isinstance(z, bool) for z in (a, b)):
+                        out.append((w2, (a and b) if isinstance(e.op, ast.BitAnd) else (a or b)))
+                    else:
+                        out.append((w2, self.arith(e.op, a, b, e)))
+            return out
+        if isinstance(e, ast.BoolOp):
+            isand = isinstance(e.op, ast.And)
+            cur = [(w, isand)]
+            for sub in e.values:
+                nxt = []
+                for w1, acc in cur:
+                    if acc is not isand:
+                        nxt.append((w1, acc))          # decided already: the rest is not evaluated
+                        continue
+                    for w2, v in self.ev(sub, w1):
+                        if not isinstance(v, bool):
+                            raise _NoVerdict("truth value of %r at %s" % (v, self.fi.where(e)))
+                        nxt.append((w2, v))
+                cur = nxt
+            return cur
+        if isinstance(e, ast.Compare):
+            # np.ndim(x) == 0 and friends: the kind of input of this run
+            if len(e.ops) == 1 and isinstance(e.left, ast.Call) and call_name(e.left) == "ndim" and const_value(e.comparators[0]) == 0:
+                return [(w, _PYOP[type(e.ops[0])](1 if self.array else 0, 0))]
+            if len(e.ops) == 1 and isinstance(e.left, ast.Attribute) and e.left.attr == "ndim" and const_value(e.comparators[0]) == 0:
+                return [(w, _PYOP[type(e.ops[0])](1 if self.array else 0, 0))]
+            cur = [(w, True, None)]
+            left = e.left
+            for op, right in zip(e.ops, e.comparators):
+                nxt = []
+                for w1, acc, lv in cur:
+                    if acc is False:
+                        nxt.append((w1, False, None))
+                        continue
+                    lvs = [(w1, lv)] if lv is not None else self.ev(left, w1)
+                    for w2, a in lvs:
+                        for w3, b in self.ev(right, w2):
+                            for w4, t in self.cmp1(w3, left, a, type(op), right, b):
+                                # the middle operand of a chain keeps its (possibly refined) value
+                                mid = w4.get(self.prefix + right.id, b) if isinstance(right, ast.Name) else b
+                                nxt.append((w4, t, mid))
+                cur = nxt
+                left = right
+            return [(w1, acc) for w1, acc, _ in cur]
+        if isinstance(e, ast.IfExp):
+            out = []
+            for w1, t in self.ev(e.test, w):
+                if not isinstance(t, bool):
+                    raise _NoVerdict("undetermined test of a conditional expression at %s" % self.fi.where(e))
+                out += self.ev(e.body if t else e.orelse, w1)
+            return out
+        if isinstance(e, ast.Call):
+            return self.call(e, w)
+        raise _NoVerdict("expression `%s` at %s" % (norm(e)[:60], self.fi.where(e)))
+
+    def call(self, c, w):
+        nm = call_name(c)
+        full = self.full(c.func) or ""
+        lib = full.startswith(("numpy.", "math."))
+        if isinstance(c.func, ast.Name) and c.func.id in ("float", "abs", "any") and c.func.id not in self.fi.module.funcs and c.func.id not in self.fi.module.imports:
+            lib = True
+        if isinstance(c.func, ast.Attribute) and not lib and nm in ("copy", "any") and not c.args:
+            # x.copy(), mask.any()
+            c = ast.copy_location(ast.Call(func=ast.Name(id=nm, ctx=ast.Load()), args=[c.func.value], keywords=[]), c)
+            lib = True
+        if lib:
+            if nm in ("array", "asarray", "asanyarray", "atleast_1d", "copy", "float", "float64", "ascontiguousarray") and len(c.args) >= 1:
+                dt = kwarg(c, "dtype") or (c.args[1] if len(c.args) > 1 else None)
+                if dt is not None and symx._dtype_class(dt) != "keep":
+                    raise _NoVerdict("conversion `%s`" % norm(c))
+                return self.ev(c.args[0], w)
+            if nm in ("fmod", "mod", "remainder") and len(c.args) == 2:
+                out = []
+                for w1, a in self.ev(c.args[0], w):
+                    for w2, m in self.ev(c.args[1], w1):
+                        if not (_isval(a) and isinstance(m, float) and 0 < m < _INF):
+                            raise _NoVerdict("`%s`" % norm(c))
+                        out.append((w2, self.rem(a, m, nm != "fmod")))
+                return out
+            if nm in ("isfinite", "isnan", "isinf") and len(c.args) == 1:
+                out = []
+                for w1, a in self.ev(c.args[0], w):
+                    if not _isval(a):
+                        raise _NoVerdict("`%s`" % norm(c))
+                    out.append((w1, {"isfinite": a[0] == "fin", "isnan": a[0] == "nan", "isinf": a[0] in ("+inf", "-inf")}[nm]))
+                return out
+            if nm == "where" and len(c.args) == 3:
+                out = []
+                for w1, t in self.ev(c.args[0], w):
+                    if not isinstance(t, bool):
+                        raise _NoVerdict("`%s`" % norm(c))
+                    out += self.ev(c.args[1] if t else c.args[2], w1)
+                return out
+            if nm == "any" and len(c.args) == 1:
+                out = []
+                for w1, t in self.ev(c.args[0], w):
+                    if not isinstance(t, bool):
+                        raise _NoVerdict("`%s`" % norm(c))
+                    out.append((w1, t if (t or not self.array) else _UNK))
+                return out
+            if nm == "isscalar" and len(c.args) == 1:
+                return [(w, not self.array)]
+            raise _NoVerdict("library call `%s` at %s" % (norm(c)[:60], self.fi.where(c)))
+        if self.repo.has(full) and self.depth < 3 and not c.keywords:
+            tgt = self.repo.func(full)
+            params = [p for p in tgt.params if not p.startswith("*")]
+            if len(c.args) != len(params) or tgt.cls:
+                raise _NoVerdict("call `%s`" % norm(c)[:60])
+            sub = _Wrap(self.repo, tgt, self.array, prefix="%s%s$" % (self.prefix, tgt.name), depth=self.depth + 1)
+            cur = [w]
+            for p, a in zip(params, c.args):
+                nxt = []
+                for w1 in cur:
+                    for w2, v in self.ev_masked(a, w1):
+                        nxt.append(self.put(w2, sub.prefix + p, v))
+                cur = nxt
+            left = sub.block(tgt.node.body, cur)
+            if left:
+                raise _NoVerdict("helper %s may end without returning a value" % tgt.name)
+            return [({k: v for k, v in w1.items() if not k.startswith(sub.prefix)}, v) for w1, v in sub.rets]
+        raise _NoVerdict("call `%s` at %s" % (norm(c)[:60], self.fi.where(c)))
+
+    def ev_masked(self, e, w, mask_text=None):
+        """value of e, where x[mask] (mask true for this element, checked by the caller) stands for x"""
+        if isinstance(e, ast.Subscript):
+            if self._mask_text is None or norm(e.slice) != self._mask_text:
+                raise _NoVerdict("subscript `%s` outside a store under the same mask at %s" % (norm(e), self.fi.where(e)))
+            return self.ev(e.value, w)
+        return self.ev(e, w)
+
+    _mask_text = None
+
+    # -- statements -----------------------------------------------------------
+    def store(self, tgt, value_node, w, aug=None):
+        """worlds after `tgt = value` / `tgt op= value`"""
+        if isinstance(tgt, ast.Name):
+            out = []
+            src = value_node if aug is None else ast.copy_location(ast.BinOp(left=ast.Name(id=tgt.id, ctx=ast.Load()), op=aug, right=value_node), value_node)
+            for w1, v in self.ev(src, w):
+                out.append(self.put(w1, self.prefix + tgt.id, v))
+            return out
+        if isinstance(tgt, ast.Subscript) and isinstance(tgt.value, ast.Name):
+            if isinstance(tgt.slice, ast.Slice) and tgt.slice.lower is None and tgt.slice.upper is None and tgt.slice.step is None:
+                return self.store(tgt.value, value_node, w, aug)
+            out = []
+            for w1, m in self.ev(tgt.slice, w):
+                if m is False:
+                    out.append(w1)
+                    continue
+                if m is not True:
+                    raise _NoVerdict("store under `%s`, which is not a mask, at %s" % (norm(tgt.slice), self.fi.where(tgt)))
+                sub = _Masked(self, norm(tgt.slice))
+                src = value_node if aug is None else ast.copy_location(ast.BinOp(left=ast.Name(id=tgt.value.id, ctx=ast.Load()), op=aug, right=value_node), value_node)
+                for w2, v in sub.ev(src, w1):
+                    if not _isval(v):
+                        raise _NoVerdict("masked store of %r" % (v,))
+                    out.append(self.put(w2, self.prefix + tgt.value.id, v))
+            return out
+        raise _NoVerdict("assignment target `%s` at %s" % (norm(tgt), self.fi.where(tgt)))
+
+    def block(self, stmts, worlds):
+        for st in stmts:
+            if not worlds:
+                break
+            worlds = self.stmt(st, worlds)
+        return worlds
+
+    def stmt(self, st, worlds):
+        out = []
+        if isinstance(st, ast.Expr) and isinstance(st.value, ast.Constant):
+            return worlds
+        if isinstance(st, ast.Pass):
+            return worlds
+        if isinstance(st, ast.Assign) and len(st.targets) == 1:
+            for w in worlds:
+                out += self.store(st.targets[0], st.value, w)
+            return out
+        if isinstance(st, ast.AugAssign):
+            for w in worlds:
+                out += self.store(st.target, st.value, w, aug=st.op)
+            return out
+        if isinstance(st, ast.Return):
+            if st.value is None:
+                raise _NoVerdict("bare return at %s" % self.fi.where(st))
+            for w in worlds:
+                self.rets += self.ev(st.value, w)
+            return []
+        if isinstance(st, ast.If):
+            for w in worlds:
+                for w1, t in self.ev(st.test, w):
+                    if not (isinstance(t, bool) or t == _UNK):
+                        raise _NoVerdict("test `%s` at %s" % (norm(st.test), self.fi.where(st)))
+                    if t is True or t == _UNK:
+                        out += self.block(st.body, [w1])
+                    if t is False or t == _UNK:
+                        out += self.block(st.orelse, [w1])
+            return out
+        if isinstance(st, ast.While) and not st.orelse:
+            seen, work, rounds = [], list(worlds), 0
+            while work:
+                rounds += 1
+                if rounds > 40 or len(seen) > 400:
+                    raise _NoVerdict("loop at %s: the cases at the loop head did not stabilise" % self.fi.where(st))
+                nxt = []
+                for w in work:
+                    if any(set(s) == set(w) and all(_contains(s[k], w[k]) for k in w) for s in seen):
+                        continue
+                    seen.append(w)
+                    for w1, t in self.ev(st.test, w):
+                        if not (isinstance(t, bool) or t == _UNK):
+                            raise _NoVerdict("loop test `%s` at %s" % (norm(st.test), self.fi.where(st)))
+                        if t is True or t == _UNK:
+                            nxt += self.block(st.body, [w1])
+                        if t is False or t == _UNK:
+                            out.append(w1)
+                work = nxt
+            return out
+        raise _NoVerdict("statement %s at %s" % (type(st).__name__, self.fi.where(st)))
+
+
+class _Masked(_Wrap):
+    """expression evaluation on the right of a store under a mask: x[mask] stands for this element of x"""
+
+    def __init__(self, outer, mask_text):
+        _Wrap.__init__(self, outer.repo, outer.fi, outer.array, outer.prefix, outer.depth)
+        self._mask_text = mask_text
+
+    def ev(self, e, w):
+        if isinstance(e, ast.Subscript):
+            return self.ev_masked(e, w)
+        return _Wrap.ev(self, e, w)
+
+    def call(self, c, w):
+        # a helper applied to the selected elements sees plain values
+        return _Wrap.call(self, c, w)
+
+
+def _wrap_semantics(repo, fi):
+    """{(arm, input kind): list of result values}; raises _NoVerdict when a construct has no transfer function"""
+    params = [p for p in fi.params if not p.startswith("*")]
+    if len(params) != 1:
+        raise _NoVerdict("wrap_ra_diff no longer takes one argument")
+    res = {}
+    for array in (False, True):
+        for kind in ("fin", "nan", "+inf", "-inf"):
+            v0 = _fin(-_INF, False, _INF, False, 0.0) if kind == "fin" else (kind,)
+            a = _Wrap(repo, fi, array)
+            left = a.block(fi.node.body, [{params[0]: v0}])
+            if left:
+                raise _NoVerdict("wrap_ra_diff may end without returning a value")
+            res[("array" if array else "scalar", kind)] = [v for _, v in a.rets]
+    return res
+
+
 def wrapdiff(chk, repo):
     fi = repo.func(MOD + ".wrap_ra_diff")
     chk.analysed_unit(fi.qualname)
+    # Decided semantically where the analysis has a transfer function for every construct of the function:
+    #  * non-finite input: nan, +inf and -inf are single concrete values with exact transfer functions, so "no case reaches a return" is a
+    #    definite statement (the loop state repeats) and "some case does" a proof -- verdict either way, however the code is laid out;
+    #  * finite input: range and congruence of every result case is a proof when it succeeds; when it does not (intervals over-approximate)
+    #    the shape rules below decide as before.
+    try:
+        res, why = _wrap_semantics(repo, fi), None
+    except _NoVerdict as e:
+        res, why = None, "construct without transfer function: %s" % e
+    wraps_proved = False
+    if res is not None:
+        for arm in ("scalar", "array"):
+            stuck = [k_ for k_ in ("nan", "+inf", "-inf") if not res[(arm, k_)]]
+            chk.ob("R10.11", "wrap_ra_diff[%s]::returns-for-non-finite-input" % arm, not stuck, fi.where(),
+                   "nan, +inf and -inf reach a return: no wrap loop keeps running on a value that +-360 cannot move%s"
+                   % ("" if not stuck else " -- never returns for %s input %s" % (arm, ", ".join(stuck))))
+        ok_arm = {}
+        for arm in ("scalar", "array"):
+            vals = res[(arm, "fin")]
+            ok_arm[arm] = bool(vals) and all(_isval(v_) and v_[0] == "fin" and v_[5] == 0.0 and v_[1] >= -180.0 and v_[3] <= 180.0 for v_ in vals)
+        wraps_proved = all(ok_arm.values())
+        if wraps_proved:
+            for arm in ("scalar", "array"):
+                vals = res[(arm, "fin")]
+                chk.ob("R10.11", "wrap_ra_diff[%s]::wraps-into-[-180,180]-by-multiples-of-360" % arm, True, fi.where(),
+                       "for every finite %s input the result lies in [-180, 180] and differs from the input by a multiple of 360 (interval x congruence analysis "
+                       "starting from (-inf, inf): %d result case(s), hull [%g, %g])" % (arm, len(vals), min(v_[1] for v_ in vals), max(v_[3] for v_ in vals)))
+            return
+        why = "range/congruence not proved for: %s" % sorted(a_ for a_, v_ in ok_arm.items() if not v_)
+    # ... and by the shape of the reviewed code otherwise (template rules)
+    chk.notes["wrap_ra_diff_semantic_analysis"] = why
     loops = [x for x in walk_no_nested(fi.node) if isinstance(x, ast.While)]
     desc = []
     for lp in loops:
@@ -1142,6 +1819,8 @@ def wrapdiff(chk, repo):
     got = {(a, o, float(v) if v is not None else None, s) for a, o, v, s, same, fin in desc if same}
     chk.ob("R10.11", "wrap_ra_diff::fold-structure", got == want and len(desc) == 4, fi.where(),
            "both arms add 360 while below -180 and subtract 360 while above 180, re-testing after each step (found %s)" % sorted(desc))
+    if res is not None:
+        return          # the behaviour on non-finite input was decided above
     chk.ob("R10.11", "wrap_ra_diff::array-loops-ignore-non-finite", all(fin for a, o, v, s, same, fin in desc if a == "array") and any(a == "array" for a, *_ in desc), fi.where(),
            "the array loops mask out non-finite entries (an infinite difference would never leave the loop)")
     sc = [x for x in walk_no_nested(fi.node) if isinstance(x, ast.If) and "isfinite" in norm(x.test) and isinstance(x.test, ast.UnaryOp)]
@@ -1158,16 +1837,20 @@ def invfit(chk, repo):
     chk.analysed_unit(mk.qualname)
     chk.analysed_unit(pk.qualname)
     for const in (True, False):
-        se = symx.SymEval(repo)
-        se.run(mk, {"u": u, "v": v, "order": sp.Integer(3)}, {"constant": const})
+        se = _SE(repo)
+        se2 = _SE(repo)
+        try:
+            se.run(mk, {"u": u, "v": v, "order": sp.Integer(3)}, {"constant": const})
+            r = se2.run(pk, {"xcoeffs": xc, "ycoeffs": yc, "porder": sp.Integer(3)}, {"constant": const})
+        except symx.Unsupported as e:
+            chk.ob("R10.12", "make_amatrix/pack_coeffs[constant=%s]::term-enumeration-agrees" % const, None, mk.where(), "not evaluable in the term domain: %s" % e)
+            continue
         rows = {}
         for (arr, idx), val in se.last_env.elem.items():
             if arr == "amatrix" and isinstance(idx, tuple):
                 rows[int(idx[0])] = val
         if const:
             rows.setdefault(0, sp.Integer(1))     # the matrix starts as ones: row 0 is the constant term
-        se2 = symx.SymEval(repo)
-        r = se2.run(pk, {"xcoeffs": xc, "ycoeffs": yc, "porder": sp.Integer(3)}, {"constant": const})
         ok = isinstance(r, tuple) and len(r) == 2 and symx._is_matrix(r[0]) and symx._is_matrix(r[1])
         n_terms = 10 if const else 9
         good = ok and len(rows) == n_terms
@@ -1183,55 +1866,119 @@ def invfit(chk, repo):
         chk.ob("R10.12", "make_amatrix/pack_coeffs[constant=%s]::term-enumeration-agrees" % const, bool(good), mk.where(),
                "row k of the design matrix is u^i v^j exactly when coefficient k is packed into [i, j] (%d terms)%s" % (n_terms, "" if good else " -- mismatch %s" % bad[:3]))
     inv = repo.func(MOD + ".invert_for_coeffs")
-    se = symx.SymEval(repo)
+    se = _SE(repo)
     A, X, Y = symx.symbols("A", "X", "Y")
     r = se.run(inv, {"amatrix": A, "x": X, "y": Y}, {"lsolve": True})
     IN, SO = sp.Function("INNER"), sp.Function("SOLVE")
     ok = isinstance(r, tuple) and r == (SO(IN(A, A), IN(A, X)), SO(IN(A, A), IN(A, Y)))
     chk.ob("R10.12", "invert_for_coeffs::normal-equations", ok, inv.where(), "coefficients solve (A A^T) c = A x and (A A^T) c = A y in (x, y) order (got %s)" % str(r)[:160])
+    # Invert2DPolynomial: who gets what.  The three stages are summarised (not entered) and the arguments they are bound to are compared
     i2 = repo.func(MOD + ".Invert2DPolynomial")
-    se = symx.SymEval(repo, opaque={MOD + ".make_amatrix", MOD + ".invert_for_coeffs", MOD + ".pack_coeffs"})
     px, py, po = symx.symbols("px", "py", "po")
-    r = se.run(i2, {"u": u, "v": v, "x": px, "y": py, "porder": po}, {"pack": True, "constant": True})
-    txt = str(r)
-    ok = "make_amatrix(u, v, po)" in txt and "invert_for_coeffs" in txt and txt.count("px, py") >= 1 and "pack_coeffs" in txt
-    chk.ob("R10.12", "Invert2DPolynomial::roles", ok, i2.where(), "design matrix from the source coordinates (u, v), constraints (x, y), packed with the same order (got %s)" % txt[:200])
-    # what is fitted, over which region
-    for name, const_kw in (("InvertPVDistortion", None), ("InvertSipDistortion", False)):
+    AM, XC, YC = symx.symbols("AMATRIX", "XCOEFFS", "YCOEFFS")
+    PA, PB = M("PACKED_A"), M("PACKED_B")
+    for const in (True, False):
+        se = _SE(repo)
+        se.summaries = {MOD + ".make_amatrix": lambda b: AM, MOD + ".invert_for_coeffs": lambda b: (XC, YC), MOD + ".pack_coeffs": lambda b: (PA, PB)}
+        key = "Invert2DPolynomial[constant=%s]::roles" % const
+        try:
+            r = se.run(i2, {"u": u, "v": v, "x": px, "y": py, "porder": po}, {"pack": True, "constant": const})
+        except symx.Unsupported as e:
+            chk.ob("R10.12", key, None, i2.where(), "not evaluable: %s" % e)
+            continue
+        got = {q.rsplit(".", 1)[1]: [b for q2, b, _ in se.calls if q2 == q] for q in se.summaries}
+        if any(len(v_) != 1 for v_ in got.values()):
+            chk.ob("R10.12", key, None, i2.where(), "the design-matrix / solve / pack stages are not each called once (%s)" % {k_: len(v_) for k_, v_ in got.items()})
+            continue
+        a_, s_, p_ = got["make_amatrix"][0], got["invert_for_coeffs"][0], got["pack_coeffs"][0]
+        same = lambda b, **want: all(k_ in b and (b[k_] is w or b[k_] == w) for k_, w in want.items())
+        ok = same(a_, u=u, v=v, order=po, constant=const) and same(s_, amatrix=AM, x=px, y=py) and same(p_, xcoeffs=XC, ycoeffs=YC, porder=po, constant=const) and r == (PA, PB)
+        chk.ob("R10.12", key, bool(ok), i2.where(),
+               "design matrix from the source coordinates (u, v), constraints (x, y) in order, coefficients packed with the same order, `constant` forwarded to both the "
+               "design matrix and the packing%s" % ("" if ok else " (got make_amatrix%s invert_for_coeffs%s pack_coeffs%s -> %s)" % (a_, s_, p_, str(r)[:80])))
+    # what is fitted, over which region: the two fit drivers are run in the term domain with the grid maker, the two conversions and the
+    # fitter summarised; the values these are called with say what is fitted to what, whatever locals or helpers carry them
+    for name, model in (("InvertPVDistortion", "scamp"), ("InvertSipDistortion", "sip")):
         fi = repo.func(W + name)
         chk.analysed_unit(fi.qualname)
-        env = {}
-        for x in sorted([s for s in walk_no_nested(fi.node) if isinstance(s, ast.Assign)], key=lambda s: s.lineno):
-            for t in rules._flat_targets(x.targets[0]):
-                env.setdefault(norm(t), []).append(x)
-        calls = [c for c in walk_no_nested(fi.node) if isinstance(c, ast.Call) and call_name(c) == "Invert2DPolynomial"]
-        ok = len(calls) == 1
-        if ok:
-            c = calls[0]
-            a = [norm(z) for z in c.args]
-            if name == "InvertPVDistortion":
-                def src(nm):
-                    d = env.get(nm, [])
-                    return norm(d[-1].value) if d else ""
-                ok = src(a[0]).startswith("Apply2DPolynomial(self.distort['a'], %s, %s)" % (a[2], a[3])) and src(a[1]).startswith("Apply2DPolynomial(self.distort['b'], %s, %s)" % (a[2], a[3])) \
-                    and "self.ApplyCDMatrix(" in src(a[2]) and a[4] == "porder + order_increase"
-                what = "fits (P_a(u,v), P_b(u,v)) -> (u, v) with (u, v) = CD (pixel offsets), order raised by order_increase"
-            else:
-                ok = a[0:2] == ["xdiff", "ydiff"] and a[2] == "x - xback" and a[3] == "y - yback" and a[4] == "porder + order_increase" \
-                    and kwarg(c, "constant") is not None and norm(env["constant"][-1].value) == "False" \
-                    and norm(env["xdiff"][-1].value) == "xback - self.crpix[0]" and norm(env["ydiff"][-1].value) == "yback - self.crpix[1]"
-                what = "fits undistorted offsets -> (x - xback, y - yback) without a constant term (SIP adds the polynomial to the offsets)"
-            st = [(norm(s.targets[0]), norm(s.value)) for s in walk_no_nested(fi.node) if isinstance(s, ast.Assign) and _attr_root(s.targets[0]) == "distort"]
-            res = [norm(t) for s in walk_no_nested(fi.node) if isinstance(s, ast.Assign) and s.value is c for t in rules._flat_targets(s.targets[0])]
-            ok = ok and len(res) == 2 and ("self.distort['ap']", res[0]) in st and ("self.distort['bp']", res[1]) in st
-        chk.ob("R10.12", "%s::what-is-fitted" % name, bool(ok), fi.where(), what if ok or len(calls) == 1 else "Invert2DPolynomial call not found")
-        rng = {k: norm(env[k][-1].value) for k in ("xrang", "yrang") if k in env}
-        ok = "self.naxis[0]" in rng.get("xrang", "") and "self.naxis[1]" in rng.get("yrang", "") and "1.0" in rng.get("xrang", "") and "1.0" in rng.get("yrang", "")
-        if name == "InvertPVDistortion":
-            ok = ok and rng["xrang"].endswith("- self.crpix[0]") and rng["yrang"].endswith("- self.crpix[1]")
-        grid = [c for c in walk_no_nested(fi.node) if isinstance(c, ast.Call) and call_name(c) == "make_xy_grid"]
-        ok = ok and len(grid) == 1 and [norm(z) for z in grid[0].args[1:3]] == ["xrang", "yrang"]
-        chk.ob("R10.12", "%s::fit-grid-covers-the-image" % name, bool(ok), fi.where(), "the fit grid spans pixels 1..NAXIS1 in x and 1..NAXIS2 in y (%s)" % rng)
+        _fit_driver(chk, repo, fi, model)
+
+
+def _flag(b):
+    return sp.Symbol("TRUE" if b else "FALSE") if isinstance(b, bool) else b
+
+
+def _eq(a, b):
+    try:
+        return bool(symx._is_expr(a) and symx._is_expr(b) and symx.equal(a, b)[0])
+    except Exception:
+        return False
+
+
+def _fit_driver(chk, repo, fi, model):
+    name = fi.name
+    st, (cx, cy), cd, ci = _state("-TPV" if model == "scamp" else "-TAN-SIP", model)
+    nx, ny, inc, fac, gx, gy = symx.symbols("naxis1", "naxis2", "order_increase", "fac", "gx", "gy")
+    st["self.naxis"] = (nx, ny)
+    AI, BI = M("AINV"), M("BINV")
+    se = _mkse(repo, ("_compare_inversion",))
+
+    def sky(b):
+        return tuple(sp.Function("sky_%d" % i)(b["x"], b["y"], _flag(b["distort"])) for i in (0, 1))
+
+    def pix(b):
+        return tuple(sp.Function("pix_%d" % i)(b["longitude"], b["latitude"], _flag(b["distort"]), _flag(b["find"])) for i in (0, 1))
+    GRID, FIT = MOD + ".make_xy_grid", MOD + ".Invert2DPolynomial"
+    se.summaries = {GRID: lambda b: (gx, gy), FIT: lambda b: (AI, BI), W + "image2sky": sky, W + "sky2image": pix}
+    kf, kg = "%s::what-is-fitted" % name, "%s::fit-grid-covers-the-image" % name
+    try:
+        se.run(fi, dict(st), {k_: v_ for k_, v_ in (("order_increase", inc), ("fac", fac)) if k_ in fi.params})
+    except (symx.Unsupported, KeyError, TypeError, IndexError) as e:
+        for k_ in (kf, kg):
+            chk.ob("R10.12", k_, None, fi.where(), "the fit driver is not evaluable in the term domain: %s" % e)
+        return
+    grids = [(b, top) for q, b, top in se.calls if q == GRID]
+    fits = [(b, top) for q, b, top in se.calls if q == FIT]
+    # region
+    if len(grids) != 1 or not all(isinstance(grids[0][0].get(k_), (tuple, list)) and len(grids[0][0][k_]) == 2 for k_ in ("xrang", "yrang")):
+        chk.ob("R10.12", kg, None, fi.where(), "no single make_xy_grid(n, xrang, yrang) call with two-element ranges found (%d calls)" % len(grids))
+    else:
+        b = grids[0][0]
+        off = (cx, cy) if model == "scamp" else (0, 0)
+        want = {"xrang": (1 - off[0], nx - off[0]), "yrang": (1 - off[1], ny - off[1])}
+        ok = grids[0][1] and all(_eq(g_, w_) for k_ in want for g_, w_ in zip(b[k_], want[k_]))
+        chk.ob("R10.12", kg, bool(ok), fi.where(), "the fit grid spans pixels 1..NAXIS1 in x and 1..NAXIS2 in y%s (x range %s, y range %s)"
+               % (", as offsets from CRPIX" if model == "scamp" else "", tuple(b["xrang"]), tuple(b["yrang"])))
+    # roles
+    if len(fits) != 1:
+        chk.ob("R10.12", kf, None, fi.where(), "no single Invert2DPolynomial call found (%d calls)" % len(fits))
+        return
+    b, top = fits[0]
+    D = st["self.distort"]
+    if model == "scamp":
+        U, V = _mul(cd, gx, gy)
+        want = {"u": P(M("a"), U, V), "v": P(M("b"), U, V), "x": U, "y": V}
+        what = "fits (P_a(u,v), P_b(u,v)) -> (u, v) with (u, v) = CD (pixel offsets of the grid), order raised by order_increase, with a constant term"
+        wconst = True
+    else:
+        I = sky({"x": gx, "y": gy, "distort": True})
+        S = pix({"longitude": I[0], "latitude": I[1], "distort": False, "find": False})
+        want = {"u": S[0] - cx, "v": S[1] - cy, "x": gx - S[0], "y": gy - S[1]}
+        what = "fits undistorted offsets (sky2image(image2sky(x, y), distort=False, find=False) - CRPIX) -> (x - xback, y - yback) without a constant term "                "(SIP adds the polynomial to the offsets), order raised by order_increase"
+        wconst = False
+    bad = [k_ for k_, w_ in want.items() if not _eq(b.get(k_), w_)]
+    if not _eq(b.get("porder"), (N - 1) + inc):
+        bad.append("porder")
+    if b.get("constant") is not wconst:
+        bad.append("constant")
+    if b.get("pack") is not True:
+        bad.append("pack")
+    if not top:
+        bad.append("(call is conditional)")
+    Dn = se.last_env.vars.get("self.distort")
+    if not (isinstance(Dn, dict) and Dn.get("ap") == AI and Dn.get("bp") == BI):
+        bad.append("(results are not stored as self.distort['ap'], self.distort['bp'] in this order)")
+    chk.ob("R10.12", kf, not bad, fi.where(), what + ("" if not bad else " -- differs in: %s (got %s)" % (", ".join(bad), {k_: str(v_)[:70] for k_, v_ in b.items() if k_ in bad})))
 
 
 # ---------------------------------------------------------------------------
